@@ -20,7 +20,7 @@ BINS = ["c12"]
 NEEDS_CICADA = True
 ALLOWED_AXIOMS = []
 PINNED = ["C12_brace", "C12_brace_any_group", "C12_order", "C12_order_range", "C12_range", "C12_range_affixes", "C12_range_total",
-          "C12_home", "C12_glob", "C12_glob_hidden_dir"]
+          "C12_home", "C12_glob", "C12_glob_hidden_dir", "C12_pass_order_brace_glob"]
 TRUSTED = [
     "Coq 8.16.1 kernel (coqc; coqchk in thorough); vm_compute only in concrete witnesses / non-vacuity examples",
     "hand transcription of need_expand_brace / brace_getitem / brace_getgroup / expand_brace / expand_brace_range / "
@@ -369,13 +369,15 @@ def run(ctx, res):
     work = tempfile.mkdtemp(prefix="c12_")
     try:
         pops = [["a.txt", "b.txt", ".hid.txt", "c d.txt", "sub/x.txt", "sub/.h", "sub/y z", "zz", ".bashrc", ".vimrc",
-                 ".hdir/in.txt", ".hdir/.hin", ".hdir/two words"],
+                 ".hdir/in.txt", ".hdir/.hin", ".hdir/two words", "x{1,2}.log", "c,d.md", "a.md"],
                 [".only"], [], ["*star", "q[1]", "A", "a", "B", "b", "é.txt", "sub/deep/f.txt", ".dot", "sub/.s", "sub/t"]]
         pats = ["*", "*.txt", ".*", ".*.txt", "sub/*", "*/x.txt", "no*match", "a*", "*z", "sub/.*", "c*", "* ", "**", "*/*",
                 "[*", "q[1]*", "'*'", "\\*", "x*x", "*/*/*", "/nonexistent/*", "../*star*",
                 # directory part starting with a dot / containing "/." against populations with hidden entries
                 "./*", "./*.txt", "./.*", ".*rc", "./sub/*", "../pop0/*", "../pop0/*.txt", "../pop0/sub/*", "../pop3/sub/*",
-                ".hdir/*", ".hdir/.*", "./.hdir/*", "*/.*", "./no*match", "../pop1/*", "./*/*", "sub/../*.txt"]
+                ".hdir/*", ".hdir/.*", "./.hdir/*", "*/.*", "./no*match", "../pop1/*", "./*/*", "sub/../*.txt",
+                # what brace + star words become after brace expansion, and names holding braces / commas
+                "a*.txt", "b*.txt", "*.md", "x*.log", "x*", "*,*", "zz*.txt", "*{*"]
         le, emeta = [], []
         for pi, pop in enumerate(pops):       # all populations first: patterns reach into sibling directories
             d = os.path.join(work, "pop%d" % pi)
@@ -416,6 +418,12 @@ def run(ctx, res):
             open(starf, "w").write("*\n")
             scmd = "%s %s" % (os.path.join(ctx.helpers, "csub"), starf)
             wdx += "\x1eR" + scmd + "\x1d*\n"
+            # pass order brace -> glob: ONE word with a comma group and a star is first split, then each part globbed;
+            # a file whose NAME holds a brace group is matched by a star and its name is not brace-expanded
+            for bw in ["{a,b}*.txt", "*.{md,txt}", "x*.log", "{sub,.hdir}/*", "{zz,a}*.txt", "p{a,b}*.nomatch", "x*"]:
+                btoks = [("", "echo"), ("", bw), ('"', bw), ("", "end")]
+                le.append(C.case("dx", wdx, "30", X.toks_field(btoks)))
+                emeta.append((d, bw, btoks, "dxbrace"))
             le.append(C.case("dx", wdx, "30", X.toks_field([("", "echo"), ("", "*.txt"), ("", "$(%s)" % scmd), ('"', "*")])))
             emeta.append((d, None, [("", "echo"), ("", "*.txt"), ("", "$(%s)" % scmd), ('"', "*")], "dxstar"))
             for toks in [[("", "echo"), ("", "~/x"), ("", "$B"), ("", "{a,b}$B"), ("", "*.txt"), ("", "{1..3}"), ("'", "{a,b}*~$B")],
@@ -457,9 +465,33 @@ def run(ctx, res):
         ie = C.run_impl(ctx.bins["c12"], pe, len(le), shards=1)
         res.count("L1e_glob_L1f_do_expansion", len(le))
         for (d, p, toks, tbl), a, b in zip(emeta, me, ie):
-            if tbl in ("dx", "dxstar"):
+            if tbl in ("dx", "dxstar", "dxbrace"):
                 b = b.split("\t", 1)[1] if b.startswith("pid=") else b
                 a = a.split(" calls=")[0]
+            if tbl == "dxbrace":
+                # oracle: brace expansion first (reference expander), then each produced word globbed on its own
+                want = [toks[0]]
+                cwd_ = os.getcwd()
+                os.chdir(d)
+                try:
+                    for wd in ref_getitem(p, 0)[0]:
+                        if "*" in wd:
+                            g = sorted(x for x in pyglob.glob(wd))
+                            want += [retag(x) for x in g] if g else [retag(wd)]
+                        else:
+                            want.append(retag(wd))
+                finally:
+                    os.chdir(cwd_)
+                want = toks_line(want + toks[2:])
+                res.nontrivial("f:%s:%s" % (os.path.basename(d), p))
+                if b != want:
+                    violate(kind="oracle", layer="L1f", dir=d, directory_entries=sorted(pops[int(os.path.basename(d)[3:])]),
+                            input=p, expected=want, observed=b, model=a, failing_input=True,
+                            note="a word with a brace group and a star: braces first, then filename expansion of each part")
+                elif a != b:
+                    violate(kind="correspondence", layer="L1f", dir=d, input=toks_line(toks), model=a, impl=b, failing_input=False,
+                            note="do_expansion of the implementation differs from the model")
+                continue
             if tbl == "dxstar":
                 got = parse_toks(b)
                 if len(got) < 2 or got[-2] != ("", "*") or got[-1] != ('"', "*"):
@@ -512,7 +544,8 @@ def run(ctx, res):
               ("x{a,{b,c}d,}y", ["xay", "xbdy", "xcdy", "xy"], None), ("{1..4}", ["1", "2", "3", "4"], None),
               ("{10..4..3}", ["10", "7", "4"], None), ("*.txt", ["a.txt", "b.txt", "c d.txt"], None),
               ("sub/*", ["sub/x.txt", "sub/y z"], None), ("no*match", ["no*match"], None), ("~", [d0], None),
-              ("./*.txt", ["a.txt", "b.txt", "c d.txt"], None), ("../pop0/sub/*", ["../pop0/sub/x.txt", "../pop0/sub/y z"], None),
+              ("./*.txt", ["a.txt", "b.txt", "c d.txt"], None), ("{a,b}*.txt", ["a.txt", "b.txt"], None),
+              ("*.{md,txt}", ["a.md", "c,d.md", "a.txt", "b.txt", "c d.txt"], None), ("x*.log", ["x{1,2}.log"], None), ("../pop0/sub/*", ["../pop0/sub/x.txt", "../pop0/sub/y z"], None),
               (".hdir/*", [".hdir/in.txt", ".hdir/two words"], None), (".*rc", [".bashrc", ".vimrc"], None),
               ("pre ./sub/* 'q*' post", ["pre", "sub/x.txt", "sub/y z", "q*", "post"], None),
               ("~/q", [d0 + "/q"], None), ("'{a,b}' \"*.txt\" '~'", ["{a,b}", "*.txt", "~"], None),
